@@ -219,6 +219,17 @@ pub fn judge_conn(sc: &Scenario, obs: &Obs, res: &RunResult, opts: &JudgeOpts) -
             }
             match &plan.read {
                 ReadPlan::None => (),
+                ReadPlan::ReadToEnd | ReadPlan::Sizes { limit: None, .. } if !want.body_complete => {
+                    // the stream ended inside the body: how much of the fragment is handed
+                    // out is not pinned down, but never bytes that are not part of it
+                    if got.body.len() > want.body.len() || got.body[..] != want.body[..got.body.len()] {
+                        fail(
+                            &mut f,
+                            "body-overrun",
+                            format!("request {}: body read `{}` is not a prefix of the (truncated) body `{}`", i, esc_short(&got.body, 60), esc_short(&want.body, 60)),
+                        );
+                    }
+                }
                 ReadPlan::ReadToEnd | ReadPlan::Sizes { limit: None, .. } => {
                     if got.body != want.body {
                         let key = if got.body.len() > want.body.len() { "body-overrun" } else { "body-bytes" };
